@@ -38,6 +38,8 @@ for d in sorted(glob.glob(os.path.join(HERE, "seeded", "*"))):
     except Exception:
         continue
     res = "**detected**" if ev.get("detected") else ("not confirmed" if not ev.get("confirmed") else "MISSED")
+    if ev.get("superseded"):
+        res = "masked at evaluation time, harmless now (" + ev["superseded"] + ")"
     if ev.get("detected_by_other_check"):
         res = "missed by this property's check; **detected** by another registered check (" + ev["detected_by_other_check"] + ")"
     if ev.get("detected_after_strengthening"):
